@@ -173,6 +173,7 @@ def run(ctx, R, tier):
                 'on the stopping path is_empty() is read before reached_end(): frames pushed between the two reads would be lost',
                 detail='reached_end() ≺ is_empty()')
     err_ring(F, R)
+    err_propagation(F, R)
     # producer order: push before reached_end.store(true)
     pushes = [x for x, t in runb.calls() if (callee_path(t) or '').endswith('rtrb::Producer::<T>::push')]
     stores = [x for x, t in runb.calls() if (callee_path(t) or '').endswith('::store') and 'reached_end' in describe(runb, t['args'][0])]
@@ -216,6 +217,34 @@ def err_ring(F, R):
         pops = [t for bb, t in pe.calls() if (callee_path(t) or '') == 'rtrb::Consumer::<T>::pop']
         R.check(len(pops) == 1 and 'error_consumer' in describe(pe, pops[0]['args'][0], depth=4), 'B.C10.err-ring', 'pop_error',
                 'pop_error does not pop the error ring', detail='self.error_consumer.pop().ok()')
+
+
+def err_propagation(F, R):
+    """Every decoder error (decode, seek - at start, mid-stream, while seeking) reaches run()'s caller: inside the scheduler
+    each Result carrying the decoder's Error is propagated (?, match, returned), never dropped or unwrapped."""
+    from .c18 import consumers
+    n = 0
+    for b in F.bodies:
+        if b.krate != 'kira' or not b.path.startswith(DS + '::') or '{closure' in b.path:
+            continue
+        for bb, t in b.calls():
+            dty = t['dest'].get('ty') or ''
+            nm = t['callee'].get('name')
+            if not (dty.startswith('std::result::Result<') and dty.rstrip('>').endswith('Error')):
+                continue
+            if nm in ('branch', 'from_residual'):
+                continue
+            n += 1
+            key = '%s|%s#%d' % (b.path.split('::')[-1], nm, n)
+            if t['dest']['p'] or t['dest']['l'] == 0:
+                R.ok('B.C10.err-prop', key, detail='returned to the caller')
+                continue
+            u = consumers(b, t['dest']['l'])
+            good = bool(u & {'branch', 'match', 'return'}) and 'unwrap' not in u and not any(x.startswith('swallow') for x in u)
+            R.check(good, 'B.C10.err-prop', key,
+                    '%s: the decoder error of %s is %s instead of being propagated to the thread loop (the sound would neither stop nor report it)'
+                    % (b.path, callee_path(t), sorted(u) or 'dropped'), detail={'call': callee_path(t), 'consumed_by': sorted(u)}, where=b.where(bb))
+    R.floor('B.C10.err-prop', n, 6)
 
 
 def order_ok_once(b, A, B):
